@@ -111,6 +111,9 @@ def ops_for(x, level="full"):
                 add(Op(f"fuse{grp}[{mode}]", lambda x, g=grp, m=mode: x.fuse(*g, mode=m), inplace=lambda y, g=grp, m=mode: y.fuse(*g, mode=m, inplace=True), tags=("fuse",)))
     if n >= 2:
         add(Op("sr.fuse((0,1))", lambda x: sr.fuse(x, (0, 1)), tags=("fuse",)))
+        # history inside one step: fuse x (its index objects get hashed), then fuse a conjugate / adjoint copy the same way
+        add(Op("fuse((0,1));conj.fuse((0,1))", lambda x: (x.fuse((0, 1)), x.conj().fuse((0, 1)))[1], tags=("fuse",)))
+        add(Op("fuse((1,0),(2..));dagger.dagger.fuse", lambda x: (x.fuse((1, 0)), x.dagger().dagger().fuse((1, 0)))[1], tags=("fuse",)))
     for ax in range(n):
         if x.indices[ax].subinfo is not None:
             add(Op(f"unfuse({ax})", lambda x, a=ax: x.unfuse(a), inplace=lambda y, a=ax: y.unfuse(a, inplace=True), tags=("unfuse",)))
@@ -249,6 +252,9 @@ def ops_for(x, level="full"):
         add(Op("svd_truncated(cutoff=1e-3,mode=2,absorb=-1)", lambda x: tuple(o for o in sr.linalg.svd_truncated(x, cutoff=1e-3, cutoff_mode=2, absorb=-1) if o is not None), tags=("linalg",)))
         add(Op("svd_truncated(cutoff=1e9,mode=1,absorb=None)", lambda x: sr.linalg.svd_truncated(x, cutoff=1e9, cutoff_mode=1, absorb=None), tags=("linalg",)))
         add(Op("autoray.svd_truncated", lambda x: tuple(o for o in ar.do("svd_truncated", x, max_bond=3, cutoff=1e-12, absorb=1) if o is not None), tags=("linalg",)))
+        if x.charge == e and (0, 1) in pairs:
+            # eigh called directly on the state (it only reads one triangle of each block)
+            add(Op("eigh(x)", lambda x: sr.linalg.eigh(x), tags=("linalg", "eigh", "raw-eigh")))
         if x.charge == e and (0, 1) in pairs and x.indices[0].subinfo is None:
             add(Op("eigh(x+x.H)", lambda x: sr.linalg.eigh(_herm(x)), tags=("linalg", "eigh")))
             add(Op("autoray.eigh(x+x.H)", lambda x: ar.do("linalg.eigh", _herm(x)), tags=("linalg", "eigh")))
